@@ -91,7 +91,7 @@ func mergeConds(base, over map[string]bool) map[string]bool {
 
 func isEncryptCall(c *ssa.Call) bool {
 	f := c.Call.StaticCallee()
-	return f != nil && (f.Name() == "encryptRTP" || f.Name() == "encryptRTCP") && core.NamedOf(f.Signature.Recv().Type()) == core.ModPath+".wrappedSRTPContext"
+	return isFn(f, "", "wrappedSRTPContext.encryptRTP") || isFn(f, "", "wrappedSRTPContext.encryptRTCP")
 }
 
 func isMarshalCall(c *ssa.Call) bool {
@@ -550,7 +550,7 @@ func c17Admission(c *Ctx) {
 	atom := func(v ssa.Value) (string, bool, bool) { // name, polarity-of-true, ok
 		switch x := v.(type) {
 		case *ssa.Call:
-			if f := x.Call.StaticCallee(); f != nil && f.Name() == "isSecure" {
+			if f := x.Call.StaticCallee(); isFn(f, "", "isSecure") {
 				return "S", true, true
 			}
 		case *ssa.BinOp:
